@@ -737,9 +737,11 @@ class EncodingParser(object):
         return self.data.jumpTo(b"-->")
 
     def handleMeta(self):
-        if self.data.currentByte not in spaceCharactersBytes:
-            # if we have <meta not followed by a space so just keep going
-            return True
+        if self.data.currentByte not in spaceCharactersBytes | frozenset([b"/"]):
+            # <meta not followed by a space or a slash is the start of some
+            # other tag name
+            self.data.previous()
+            return self.handlePossibleTag(False)
         # We have a valid meta element we want to search for attributes
         hasPragma = False
         pendingEncoding = None
